@@ -479,25 +479,18 @@ def _new_shape(repo: Repo, new: FuncInfo) -> tuple[Any, ast.AST | None]:
     values (locals of __new__ evaluated in order)."""
     from sa.kern import make_evaluator, py_calls
     from sa.symterm import Env, Unsupported
+    from sa.srcmodel import inline_locals
     ev = make_evaluator(repo, new, extra_call=py_calls)
     ev.int_transparent = True
-    env = Env()
-    for s in func_body(new):
-        for nd in ast.walk(s):
-            if isinstance(nd, ast.Call) and isinstance(
-                    nd.func, ast.Attribute) and nd.func.attr == "__new__" \
-                    and len(nd.args) >= 2:
-                try:
-                    v = ev.expr(env, nd.args[1])
-                except Unsupported:
-                    return None, nd
-                return (v if isinstance(v, tuple) else None), nd
-        if isinstance(s, (ast.Assign, ast.AnnAssign)) and getattr(
-                s, "value", None) is not None:
+    for nd in ast.walk(new.node):
+        if isinstance(nd, ast.Call) and isinstance(
+                nd.func, ast.Attribute) and nd.func.attr == "__new__" \
+                and len(nd.args) >= 2:
             try:
-                env = ev.stmt(env, s)
+                v = ev.expr(Env(), inline_locals(new.node, nd.args[1]))
             except Unsupported:
-                pass
+                return None, nd
+            return (v if isinstance(v, tuple) else None), nd
     return None, None
 
 
